@@ -351,7 +351,13 @@ func TestCheck(t *testing.T) {
 		r.Finish()
 	}
 	r.RunJobs(shards, shards, time.Until(deadline)+3*time.Minute)
-	if _, child := runner.IsShard(); !child { adminPart(r); mcpPart(r) }
+	if _, child := runner.IsShard(); !child {
+		adminPart(r)
+		px := make(chan struct{})
+		go func() { defer close(px); mcpProxyPart(r) }() // MCP through the Admin API proxy, next to the direct-SQLite MCP part
+		mcpPart(r)
+		<-px
+	}
 	r.Set("selectors_per_population", len(fs)*3)
 	r.Set("rule", fmt.Sprintf("every multiset of <= %d messages over route x target x state(5) x received_at{T0,T1; ties via equal kinds} built with real operations, crossed with every filter route{-,r1,r2} x target{-,t1} x state{-,5} x before{-,T0,T1,T1+1ns} x limit{0,1,2} x preview for cancel/requeue/resume-by-filter and id lists (hit, miss, blank, duplicate, padded, all) for cancel/requeue/resume/dlq requeue/dlq delete/lookup, on MemoryStore and SQLiteStore; plus bulk populations 101/1000/1001 x limit{0,100,1000,1001,-5}; oracle = qmodel selection (newest first, id desc in ties, capped, allowed states only) with a full private-state snapshot comparison; non-trivial = distinct (operation, changed count, matched count) classes", size))
 	r.Assume("SQLite quick tier uses the reduced kind set (one target); thorough uses the full set")
